@@ -12,7 +12,9 @@ use std::io::{BufRead, Write};
 
 fn main() {
     // silence panic messages (they are expected outcomes in some cases)
-    std::panic::set_hook(Box::new(|_| {}));
+    if std::env::var("MFI_PANIC_VERBOSE").is_err() {
+        std::panic::set_hook(Box::new(|_| {}));
+    }
     let args: Vec<String> = std::env::args().collect();
     match args.get(1).map(|s| s.as_str()) {
         Some("consts") => {
